@@ -103,3 +103,14 @@ char *mlog_get_line(int n)
 
 	return NULL;
 }
+
+#ifdef LIBRFN_VERIF
+/* Verification hook: place the message counter (e.g. just below its wrap
+ * point) without logging 2^31 messages first. Not part of the API.
+ */
+void mlog_verif_set_count(unsigned int count);
+void mlog_verif_set_count(unsigned int count)
+{
+	log.head = count;
+}
+#endif
